@@ -4,6 +4,7 @@
   are not of that kind (first match in the flat list wins), and that `append_map` (with a fresh
   partner), `append_mapping`, `append_mapping_inverted`, `invert`, `slice` never leave the family.
 -/
+import PM.MapTable
 import Proofs.MapCompose
 namespace PM
 
@@ -13,6 +14,10 @@ def MirrorFunctional (m : Mapping) : Prop :=
 
 instance (m : Mapping) : Decidable (MirrorFunctional m) := by
   unfold MirrorFunctional; infer_instance
+
+/-- the executable predicate of PM/MapTable.lean (evaluated by the driver) is this family -/
+theorem functionalB_iff (m : Mapping) : m.functionalB = true ↔ MirrorFunctional m := by
+  simp [Mapping.functionalB, MirrorFunctional, and_assoc]
 
 /-! ### reading a table -/
 
